@@ -48,7 +48,9 @@ const (
 
 // Op is one step of the history.
 type Op struct {
-	K string `json:"k"` // create update delete grant revoke check; toggle (span steps only)
+	// K: create update delete grant revoke check; toggle (span steps only); recreate = identity By issues
+	// once more the create mutation that created document Doc (same content, hence the same docID)
+	K string `json:"k"`
 
 	Col int `json:"col,omitempty"` // 0 Author, 1 Book
 	Doc int `json:"doc,omitempty"` // index modulo the documents of Col created so far
@@ -573,7 +575,7 @@ func drawCase(t *rapid.T) Case {
 	for cp := 0; cp < nCheck; cp++ {
 		n := rapid.IntRange(1, 7).Draw(t, "nops")
 		for i := 0; i < n; i++ {
-			op := drawWrite(t, []string{"create", "create", "update", "update", "update", "delete", "grant", "grant", "grant", "revoke", "revoke"})
+			op := drawWrite(t, []string{"create", "create", "update", "update", "update", "delete", "grant", "grant", "grant", "revoke", "revoke", "recreate"})
 			c.Ops = append(c.Ops, op)
 		}
 		cpt := drawCheckpoint(t)
